@@ -61,6 +61,16 @@ Proof.
   destruct S as (t' & E & G). exists t'. split; [exact E|]. apply attached_ext. exact G.
 Qed.
 
+(* the refusal is a no-op on the whole node of every prefix: callback, validator and the options of the occupying
+   handler (need_raw_packet / need_sig_ptrs) stay what they were, whatever the refused call asked for *)
+Theorem top_duplicate_refused_nodes fe t k h0 h v ex :
+  attached t k = Some h0 ->
+  exists t', fib_attach fe t k h v ex = (t', Err EValue) /\ forall q, t_get t' q = t_get t q.
+Proof.
+  intros H. pose proof (fib_attach_spec fe t k h v ex) as S. rewrite H in S.
+  destruct S as (t' & E & G). exists t'. split; [exact E|exact G].
+Qed.
+
 Theorem top_attach_frame fe t k h v ex :
   attached t k = None ->
   exists t', fib_attach fe t k h v ex = (t', Ok tt) /\ attached t' k = h /\
